@@ -46,6 +46,10 @@ CLAIMED = {
          "The (num_vars, max_degree) grid 1..=6 x 1..=6 is enumerated completely on every run: key set equals the harness's own enumeration of exponent vectors, every element is tied to its divisor monomial by a pairing identity for every variable, trim is checked for every supported degree; generated mixed-monomial polynomials (with and without hiding) must open and verify (C01 oracle) and reject perturbed statements (C02 oracle).",
          "Grid is exhaustive for n, d <= 6 only; openings are explored, not exhaustive.",
          "DESIGN.md §4 C15"),
+ "C12": ("property-based testing (proptest): serialization round-trip, size and cross-mode oracles over every artefact of generated transcripts, prefix-truncation fault injection, decision equality with deserialized inputs",
+         "Exploration: each artefact produced along generated transcripts goes through Compress x Validate (4 modes): ser/deser/ser identity, serialized_size equals bytes written, cross-mode agreement, all (or 36-192 sampled) proper prefixes must be Err rather than Ok or abort, and verification with all-deserialized inputs must agree with the originals on an honest and a tampered claim. Sensitivity: catches the sub-agent change seeded/C12 (Sonic verifier-key validity off-by-one).",
+         "Truncation is checked on prefixes (as the property says), not arbitrary corruption; streaming-KZG types are not serializable.",
+         "DESIGN.md §4 C12"),
 }
 
 NOT_YET = "check not built yet in this round (planned, see DESIGN.md §4)"
